@@ -39,40 +39,6 @@ Definition res_matches (r : res) (o : obs) : bool :=
 
 Definition fuel0 : nat := 40.
 
-(* Python == on results: like value_eqb, except that numbers are compared by value (1 == 1.0 == True) *)
-Fixpoint value_loose_eqb (a b : value) {struct a} : bool :=
-  match num_of a, num_of b with
-  | Some x, Some y => Z.eqb x y
-  | _, _ =>
-  match a, b with
-  | VList l1, VList l2 | VTuple l1, VTuple l2 =>
-      (fix go (l1 l2 : list value) : bool :=
-         match l1, l2 with
-         | [], [] => true
-         | x :: r1, y :: r2 => value_loose_eqb x y && go r1 r2
-         | _, _ => false end) l1 l2
-  | VSet l1, VSet l2 | VFrozenSet l1, VFrozenSet l2 =>
-      Nat.eqb (List.length l1) (List.length l2) &&
-      (fix all (l1 : list value) : bool :=
-         match l1 with [] => true | x :: r1 => existsb (value_loose_eqb x) l2 && all r1 end) l1
-  | VDict l1, VDict l2 =>
-      Nat.eqb (List.length l1) (List.length l2) &&
-      (fix all (l1 : list (value * value)) : bool :=
-         match l1 with
-         | [] => true
-         | (k1, x) :: r1 => existsb (fun kv => value_loose_eqb k1 (fst kv) && value_loose_eqb x (snd kv)) l2 && all r1
-         end) l1
-  | VObj c1 f1, VObj c2 f2 =>
-      Nat.eqb c1 c2 &&
-      (fix go (l1 l2 : list (string * value)) : bool :=
-         match l1, l2 with
-         | [], [] => true
-         | (k1, x) :: r1, (k2, y) :: r2 => String.eqb k1 k2 && value_loose_eqb x y && go r1 r2
-         | _, _ => false end) f1 f2
-  | _, _ => value_eqb a b
-  end
-  end.
-
 (* the hypotheses of the C01 theorem, as a boolean *)
 Definition c01_hyps (u : univ) (o : dopts) (t : ty) (d : pyval) : bool :=
   (wf_univ u o && wf_ty t && union_order_ok t && wf_data d)%bool.
@@ -102,6 +68,7 @@ Fixpoint show_value (v : value) : string :=
   | VObj c fs => "C" ++ show_nat c ++ "(" ++ join ", " (map (fun kv => fst kv ++ "=" ++ show_value (snd kv)) fs) ++ ")"
   | VEnum e p => "E" ++ show_nat e ++ "." ++ show_prim p
   | VOther t => "<" ++ t ++ ">"
+  | VUndefined => "Undefined"
   end.
 
 Definition show_res (r : res) : string :=
